@@ -212,6 +212,11 @@ add("d2_attribution", "transcode::stream",
     bounds="<= 6 events, nesting 1, serializer fault at any call position (usize), deserializer fault at any event / between entries / before a value",
     functions=D_FUN, covers=["D serializer fault inside a collection", "D deserializer fault inside a collection"],
     flags=NOCHK, props=["C11", "C12"], timeout=1500, mem_gb=16, assumptions=D_ASM, replay="stream")
+add("d2b_attribution_nest2_small", "transcode::stream",
+    desc="D2 at nesting 2 with 3 events (collection > collection > failing entry): a collection child that reports a deserializer / serializer failure to its parent is attributed correctly - the inductive case the nesting-1 harness cannot produce",
+    bounds="<= 3 events, nesting 2, one fault on either side at any position", functions=D_FUN,
+    covers=["D2b deserializer fault two levels down", "D2b serializer fault two levels down"],
+    flags=NOCHK, props=["C11", "C12"], timeout=1500, mem_gb=16, assumptions=D_ASM, replay="stream")
 add("d3_totality", "transcode::stream",
     desc="as D2 with all default checks on (take_parent/unwrap panics, memory safety, overflow)", bounds="<= 4 events, nesting 1, faults anywhere",
     functions=D_FUN, covers=["D serializer fault inside a collection"], props=["C04", "C12"], timeout=1500, mem_gb=16, assumptions=D_ASM, replay="stream")
@@ -365,6 +370,14 @@ add("e3_k1_name_tables", "", overlay="e3", desc="try_parse_format equals the doc
 add("e3_k2_argv_grammar", "", overlay="e3", desc="Cli::parse_args over symbolic token sequences: Err iff lexopt error / repeated -f or -t / invalid format name / unknown option; -V, --version, -h, --help reach exit(0) after writing to stdout only; -f/-t set from/to, to defaults to JSON; positional arguments become inputs",
     bounds="token sequences of length <= 3 (thorough: 4) over 11 symbolic token classes (unknown short option = any other char, unknown long option = any other string)", functions=K_FUN[2:4],
     props=["C13"], timeout=900, mem_gb=4, assumptions=K_ASM)
+add("e3_k7_reader_loops", "", overlay="e3",
+    desc="the reader-mode document loops of the library (behind Box<dyn Read>, out of Kani's reach) from the library crate's MIR: msgpack::transcode (slice and reader branch), json::transcode (both branches), yaml::transcode_reader: one transcode_from per document in order; a failure of the reader (fill_buf / chunker item), the size calculator, from_utf8, the encoder set-up or the output is returned as Err and nothing is read or translated afterwards; Ok only at the clean end of input; every rmp-serde deserializer gets set_max_depth(DEPTH_LIMIT) before use",
+    bounds="<= 3 documents per run (thorough: 4); all outcomes of fill_buf / end / iterator next / transcode_from", functions=["msgpack::transcode", "json::transcode", "yaml::transcode_reader"],
+    props=["C03", "C12", "C18", "C02"], timeout=600, mem_gb=4, assumptions=K_ASM[:1] + ["third-party calls (BufReader::fill_buf, Deserializer::{new,end}, StreamDeserializer::next, Chunker::next) return symbolic results"])
+add("e3_k8_from_reader", "", overlay="e3",
+    desc="yaml::encoding::Encoder::from_reader from the library crate's MIR: the detector is given prefix.unread() where the prefix buffer was filled by io::copy(reader.by_ref().take(DETECT_LEN)) - io::copy loops until Take is exhausted, so four bytes are seen for EVERY windowing of the source - and Encoder::new gets prefix.chain(reader) with the detected encoding; a copy failure is returned as Err",
+    bounds="all paths of from_reader (data-flow of the four observable calls)", functions=["yaml::encoding::Encoder::from_reader"],
+    props=["C07", "C02", "C09"], timeout=300, mem_gb=4, assumptions=K_ASM[:1] + ["documented contract of std::io::copy / Read::take / Read::chain"])
 add("e3_main", "", overlay="e3", desc="every path of main(): K3 exit status 2 <=> invalid command line (usage on stderr, nothing on stdout, nothing translated), exit(1) <=> one 'xt error' message naming the input the failure belongs to, 0 <=> all translated and flushed, MessagePack never to a terminal; K4 source format = -f, else extension, else detection, stdin at most once, mmap => slice; K5 every finished input is flushed explicitly before anything else can fail; K6 translator writes through pipecheck::Writer(BufWriter(stdout.lock()))",
     bounds="<= 3 inputs (thorough: 4); all outcomes of parse_args / open / mmap / translate / flush / is_terminal", functions=K_FUN,
     props=["C13", "C14", "C15", "C16"], timeout=1800, mem_gb=6, assumptions=K_ASM)
